@@ -35,8 +35,9 @@ fn c13_strategy(ctx: &Ctx) -> BoxedStrategy<SeqCase> {
   let max = ctx.tier.pick(12, 20);
   let kinds = prop::sample::select(vec![ConnKind::Publish, ConnKind::RefCount, ConnKind::Replay]);
   // source: 0 = hot, 1 = cold synchronous, 2 = per-subscription cold
-  (kinds, 0u8..=2, gen::script_wf(4, 1), gen::script_wf(3, 1), prop::collection::vec(cop(), 1..=max), any::<bool>(), 0u64..4)
-    .prop_map(|(kind, src, s1, s2, ops, via_map, hash_seed)| {
+  let take = prop::option::weighted(0.3, 1usize..=2);
+  (kinds, 0u8..=2, gen::script_wf(4, 1), gen::script_wf(3, 1), prop::collection::vec(cop(), 1..=max), any::<bool>(), take, 0u64..4)
+    .prop_map(|(kind, src, s1, s2, ops, via_map, take, hash_seed)| {
       let hot = src == 0;
       let mut root = match src {
         0 => Node::Src(0, Src::Hot(0)),
@@ -124,7 +125,10 @@ fn c13_strategy(ctx: &Ctx) -> BoxedStrategy<SeqCase> {
           root,
           hots: if hot { vec![HotKind::Harness] } else { vec![] },
           hot_illformed: false,
-          conn: Some(kind),
+          conn: Some(kind.clone()),
+          // subscribers that end by themselves (take) - not for replay over cold sources, whose
+          // subscriber count must stay above zero until the source finished
+          conn_take: if kind == ConnKind::Replay && !hot { None } else { take },
           recorders: vec![vec![], vec![], vec![]],
           actions,
         },
